@@ -800,3 +800,288 @@ theorem ascii_constants :
   ⟨by decide, rfl, rfl, rfl, rfl, by decide, by decide, by decide, by decide⟩
 
 end Mieru.C16
+
+/-! ## Wire clauses as theorems over the emission models (`Mieru.Model.PatternWire`) -/
+namespace Mieru.C16
+open Mieru.Pattern Mieru.Padding Mieru.PatternWire
+
+/-- **Server uses low entropy only toward a client that used it first** — temporal statement, per session.
+    In EVERY history of a server-side session that starts with the flag clear (as `Session` is created), every
+    low-entropy data segment the server emits comes from a `writeChunk` that is preceded, in that session's own
+    history, by the receipt of a `dataClientToServerLowEntropy` segment. -/
+theorem server_low_entropy_preceded_by_client (s : LESession) (hs : s.isClient = false) (h0 : s.clientUsedLE = false)
+    (evs : List LEEvent) (e : Emit) (he : e ∈ runEmits s evs) (hle : e.isLE = true) :
+    ∃ pre n post, evs = pre ++ LEEvent.sendChunk n :: post ∧ e ∈ (step (runState s pre) (.sendChunk n)).2 ∧
+      LEEvent.recv dataClientToServerLowEntropy ∈ pre := by
+  obtain ⟨pre, n, post, h1, h2⟩ := mem_runEmits s evs e he
+  refine ⟨pre, n, post, h1, h2, ?_⟩
+  have h3 := mem_step_sendChunk _ n e h2
+  rw [h3, isLE_dataProtocolOf] at hle
+  have h4 := ((server_le_only_after_client (runState s pre).pattern (runState s pre).isClient (runState s pre).clientUsedLE).1.mp hle).2
+  rw [runState_isClient, hs] at h4
+  rcases h4 with h4 | h4
+  · cases h4
+  · rcases runState_flag s pre h4 with h5 | ⟨_, h5⟩
+    · rw [h0] at h5; cases h5
+    · exact h5
+
+/-- **Clients follow their own setting from the first data segment; mode and rotation on the wire are the
+    configured ones** (either role): a data segment is low-entropy-typed iff the sender's decision said so, its
+    protocol number is the role's (6/10 client, 7/11 server), and a low-entropy segment carries exactly the
+    configured mode (≠ OFF) and rotation; a client's decision is its own configuration, in every history. -/
+theorem emitted_low_entropy_is_configured (s : LESession) (evs : List LEEvent) (e : Emit) (he : e ∈ runEmits s evs) :
+    let cfg := extractLowEntropyConfig s.pattern
+    (e.isLE = true → cfg.2.2 = true ∧ e.mode = cfg.1 ∧ e.rotation = cfg.2.1 ∧ e.mode ≠ 0) ∧
+    (e.isLE = false → e.mode = 0 ∧ e.rotation = 0) ∧
+    (s.isClient = true → e.isLE = cfg.2.2 ∧ (e.protocol = dataClientToServer ∨ e.protocol = dataClientToServerLowEntropy)) ∧
+    (s.isClient = false → (e.protocol = dataServerToClient ∨ e.protocol = dataServerToClientLowEntropy)) := by
+  obtain ⟨pre, n, post, _, h2⟩ := mem_runEmits s evs e he
+  have h3 := mem_step_sendChunk _ n e h2
+  rw [runState_isClient, runState_pattern] at h3
+  have hd := server_le_only_after_client s.pattern s.isClient (runState s pre).clientUsedLE
+  simp only at hd
+  generalize lowEntropySendConfig s.pattern s.isClient (runState s pre).clientUsedLE = r at *
+  subst h3
+  simp only [isLE_dataProtocolOf]
+  refine ⟨fun h => ⟨(hd.1.mp h).1, (hd.2.1 h).1, (hd.2.1 h).2.1, by rw [(hd.2.1 h).1]; exact (hd.2.1 h).2.2 |> fun x => by rwa [(hd.2.1 h).1] at x⟩,
+    fun h => hd.2.2 h, ?_, ?_⟩
+  · intro hc
+    refine ⟨?_, ?_⟩
+    · cases hr : r.2.2 with
+      | true => exact ((hd.1.mp hr).1).symm
+      | false =>
+        cases hcfg : (extractLowEntropyConfig s.pattern).2.2 with
+        | false => rfl
+        | true => have := hd.1.mpr ⟨hcfg, Or.inl hc⟩; rw [hr] at this; cases this
+    · rw [hc]; cases r.2.2 <;> simp [dataProtocolOf]
+  · intro hc; rw [hc]; cases r.2.2 <;> simp [dataProtocolOf]
+
+/-- **Nonce pattern on UDP: every packet iff `applyToAllUDPPacket`, else exactly the first — per cipher object.**
+    `ids` = for each datagram of a socket, in emission order, the identity of the (stateless) cipher object that
+    encrypted it.  With a pattern, packet i carries it iff applyToAll or no earlier packet used the same object;
+    with NO pattern (`noncePattern == nil`) no packet does.  Corollary: ONE object (a client's packet underlay
+    uses its single `u.block` for everything it sends) ⇒ the first datagram only, or all of them. -/
+theorem udp_nonce_pattern_emission (ty : Int) (all : Bool) (ids : List Nat) (id n : Nat) :
+    wireFlags (some (ty, all)) ids [] = (firstUse ids []).map (all || ·) ∧
+    wireFlags none ids [] = List.replicate ids.length false ∧
+    wireFlags (some (ty, all)) (List.replicate (n + 1) id) [] = true :: List.replicate n all := by
+  refine ⟨wireFlags_some .., wireFlags_none .., ?_⟩
+  rw [wireFlags_some]
+  simp only [List.replicate_succ, firstUse, List.contains_nil, Bool.not_false, List.map_cons, Bool.or_true]
+  rw [firstUse_replicate n id [id] (by simp)]
+  simp
+
+/-- **One cipher object**: `n` Encrypt calls.  Stateless (UDP): each call sends a nonce; those carrying the
+    pattern are `stepFlags` — none for a nil pattern, all for applyToAll, else exactly the first.  Implicit-nonce
+    mode (TCP): ONLY the first call puts a nonce on the wire (later calls increment the implicit nonce), and that
+    one nonce went through `newNonceTo` with the skip test off: it carries the pattern iff there is one.
+    `Clone()` (how TCP underlays obtain `send`/`recv`) does not copy `noncePatternApplied`. -/
+theorem cipher_object_nonce_emission (pat : Option (Int × Bool)) (ty : Int) (n : Nat) (c : CipherObj) :
+    (encryptN pat n { implicitMode := false }).map (·.sentNonce) = List.replicate n true ∧
+    (encryptN none n { implicitMode := false }).map (·.patterned) = List.replicate n false ∧
+    (encryptN (some (ty, true)) n { implicitMode := false }).map (·.patterned) = List.replicate n true ∧
+    (encryptN (some (ty, false)) (n + 1) { implicitMode := false }).map (·.patterned) = true :: List.replicate n false ∧
+    (encryptN pat (n + 1) { implicitMode := true }).map (·.sentNonce) = true :: List.replicate n false ∧
+    (encryptN pat (n + 1) { implicitMode := true }).map (·.patterned) = pat.isSome :: List.replicate n false ∧
+    (clone c).applied = false := by
+  have hu := fun p => encryptN_udp p n false
+  have hu1 := encryptN_udp (some (ty, false)) (n + 1) false
+  have h1 := (nonce_rewrite_once_for_udp n)
+  refine ⟨(hu pat).1, ?_, ?_, ?_, ?_, ?_, rfl⟩
+  · rw [(hu none).2, stepFlags_none]
+  · rw [(hu _).2, stepFlags_some]; exact h1.2.1
+  · rw [hu1.2, stepFlags_some]; exact h1.1
+  · rw [encryptN_tcp]; simp
+  · rw [encryptN_tcp]
+    cases pat with
+    | none => simp [EncOut.patterned, newNonceStep]
+    | some v => obtain ⟨t, a⟩ := v; simp [EncOut.patterned, newNonceStep, nonceApplies]
+
+/-- **Nonce prefix of the configured class and length**: after the type switch of `newNonceTo`, for a rewrite
+    length `n ≤ len` — PRINTABLE: the first `n` bytes are printable ASCII (0x20..0x7e) whatever the random draws,
+    bytes that were printable stay; PRINTABLE_SUBSET: the first `n` bytes are members of `Common64Set`; both: the
+    remaining bytes are untouched; FIXED: the first `min(len prefix, NonceSize)` bytes are the chosen decoded
+    prefix, the rest untouched (no prefix configured: untouched); RANDOM: untouched.  The length never changes.
+    The user hint, written afterwards, overwrites only the last 4 bytes: a prefix of ≤ len − 4 bytes survives. -/
+theorem nonce_prefix_in_class (nonce : PatternWire.Bytes) (n : Nat) (hn : n ≤ nonce.length) (draws : List Nat) (pre hint4 : PatternWire.Bytes) :
+    let p := rewriteNonce .printable nonce n draws none
+    let s := rewriteNonce .subset nonce n draws none
+    let f := rewriteNonce .fixed nonce n draws (some pre)
+    let k := min pre.length nonce.length
+    (p.length = nonce.length ∧ (∀ x ∈ p.take n, isPrintable x = true) ∧ p.drop n = nonce.drop n ∧
+      ((∀ x ∈ nonce.take n, isPrintable x = true) → p = nonce)) ∧
+    (s.length = nonce.length ∧ (∀ x ∈ s.take n, x ∈ common64Set) ∧ s.drop n = nonce.drop n) ∧
+    (f.length = nonce.length ∧ f.take k = pre.take k ∧ f.drop k = nonce.drop k) ∧
+    rewriteNonce .fixed nonce n draws none = nonce ∧ rewriteNonce .none nonce n draws (some pre) = nonce ∧
+    (n ≤ nonce.length - 4 → (withHint p hint4).take n = p.take n ∧ (withHint s hint4).take n = s.take n) := by
+  have hl1 : (toPrintable (nonce.take n) draws).length = n := by rw [toPrintable_length, List.length_take]; omega
+  have hl2 : ((nonce.take n).map toCommon64).length = n := by rw [List.length_map, List.length_take]; omega
+  have hf := applyFixed_spec nonce pre nonce.length rfl
+  intro p s f k
+  refine ⟨⟨?_, ?_, ?_, ?_⟩, ⟨?_, ?_, ?_⟩, hf, rfl, rfl, ?_⟩ <;> simp only [p, s, rewriteNonce]
+  · simp only [List.length_append, hl1, List.length_drop]; omega
+  · rw [List.take_append_of_le_length (by omega), List.take_of_length_le (by omega)]
+    exact toPrintable_all _ _
+  · rw [List.drop_append_of_le_length (by omega), List.drop_of_length_le (by omega)]; rfl
+  · intro h; rw [toPrintable_of_all_printable _ _ h]; exact List.take_append_drop _ _
+  · simp only [List.length_append, hl2, List.length_drop]; omega
+  · rw [List.take_append_of_le_length (by omega), List.take_of_length_le (by omega)]
+    intro x hx
+    obtain ⟨b, _, rfl⟩ := List.mem_map.mp hx
+    exact toCommon64_mem b
+  · rw [List.drop_append_of_le_length (by omega), List.drop_of_length_le (by omega)]; rfl
+  · intro h4
+    constructor
+    · exact withHint_take _ _ _ (by simp only [List.length_append, hl1, List.length_drop]; omega)
+    · exact withHint_take _ _ _ (by simp only [List.length_append, hl2, List.length_drop]; omega)
+
+/-- **TCP fragmentation only when enabled and content-preserving**: whatever the random draws, the
+    concatenation of the `Write` calls is the data; not enabled (nil pattern, nil `tcpFragment`, or
+    `enable = false`) ⇒ exactly ONE `Write` with the whole data; enabled ⇒ no empty `Write`, every piece at most
+    `max(⌊√len⌋+1, len/2)` bytes and — except the last — at least `⌊√len⌋+1` (so ≥ 2 writes from 4 bytes on). -/
+theorem tcp_fragment_content_preserved {α} (disabled : Bool) (data : List α) (draws : Nat → Nat) :
+    (writes disabled data draws).flatten = data ∧
+    (disabled = true → writes disabled data draws = [data]) ∧
+    (disabled = false → ∀ p ∈ writes disabled data draws, p ≠ []) ∧
+    writeSizesOK disabled data.length ((writes disabled data draws).map List.length) = true := by
+  cases disabled with
+  | true => simp [writes, writeSizesOK]
+  | false =>
+    simp only [writes, writeSizesOK, Bool.false_eq_true, ↓reduceIte, false_implies, true_implies, true_and]
+    exact ⟨pieces_flatten _ _ _ _ _ _ (Nat.le_refl _), pieces_nonempty _ _ _ _ _ _, pieces_sizesOK _ _ _ _ _ _ (Nat.le_refl _)⟩
+
+/-- the `maxEnd` twin of `padding_le_explicit` -/
+theorem padding_le_explicit_end (fi : Nat → String → Nat) (host : Int) (p : TrafficPattern) (base c : Int) (hc : 0 ≤ c)
+    (h : p.padding.bind (·.maxEnd) = some c) :
+    maxPadTP base ((effective fi host p).padding.bind (·.maxEnd)) ≤ c := by
+  have := (explicit_preserved fi host p).2.2.2.2.2.2.2.2.2.2.1 c h
+  rw [this]
+  exact (padding_le_configured base c hc).1
+
+/-- composed with the regenerated function: the budget the REAL `maxPaddingSizeWithTrafficPattern` computes from
+    the EFFECTIVE pattern (never nil, `Padding` never nil after `NewConfig`) is at most the explicitly configured
+    maximum, for the middle and for the end padding, at every MTU / transport / fragment size -/
+theorem padding_budget_le_explicit_gen (fi : Nat → String → Nat) (host : Int) (p : TrafficPattern)
+    (mtu transport frag existing c : Int) (hc : 0 ≤ c) :
+    let e := effective fi host p
+    (p.padding.bind (·.maxMiddle) = some c →
+      Mieru.Gen.PatternGen.maxPaddingSizeWithTrafficPattern mtu transport frag existing false e.padding.isNone
+        (e.padding.bind (·.maxMiddle)) (e.padding.bind (·.maxEnd)) 0 ≤ c) ∧
+    (p.padding.bind (·.maxEnd) = some c →
+      Mieru.Gen.PatternGen.maxPaddingSizeWithTrafficPattern mtu transport frag existing false e.padding.isNone
+        (e.padding.bind (·.maxMiddle)) (e.padding.bind (·.maxEnd)) 1 ≤ c) := by
+  have hnil : (effective fi host p).padding.isNone = false := rfl
+  simp only [maxPadTP_eq_gen, configuredFor, hnil, Bool.or_self, Bool.false_eq_true, ↓reduceIte]
+  exact ⟨padding_le_explicit fi host p _ c hc, by simpa using padding_le_explicit_end fi host p _ c hc⟩
+
+/-- **"… and runs without error"** (audit GAP-1): for every valid pattern, every seed / host / FixedInt, the
+    EFFECTIVE pattern meets the preconditions of every runtime consumer, for every MTU 1280..1500 and both
+    transports: `buildLowEntropyParams(mode)` succeeds when the mode is on; `maxFragmentSize` (regenerated) succeeds
+    with a positive size (so `writeChunk` neither fails nor divides by zero); the rotation passes
+    `isValidLowEntropyRotation`; the nonce rewrite length lies in 0..12 ⊆ 0..24 (no `ToPrintableChar` /
+    `ToCommon64Set` panic: `begin ≤ end ≤ len`); every custom hex string decodes to ≤ 12 bytes (the FIXED branch's
+    `panic` is unreachable and `copy` stays inside the nonce); tcpFragment.maxSleepMs ∈ 0..100. -/
+theorem effective_runs_without_error (fi : Nat → String → Nat) (hfi : FixedIntOK fi) (host : Int) (p : TrafficPattern)
+    (hv : validate p = .ok ()) (mtu : Int) (hm : 1280 ≤ mtu ∧ mtu ≤ 1500) (r : Nat) :
+    let e := effective fi host p
+    ∃ tcp non pad le mode rot minLen maxLen sleep,
+      e.tcpFragment = some tcp ∧ e.nonce = some non ∧ e.padding = some pad ∧ e.lowEntropy = some le ∧
+      le.mode = some mode ∧ le.maskRotation = some rot ∧ non.minLen = some minLen ∧ non.maxLen = some maxLen ∧
+      tcp.maxSleepMs = some sleep ∧ 0 ≤ sleep ∧ sleep ≤ 100 ∧
+      (mode ≠ 0 → (Mieru.Gen.Arith.buildLowEntropyParams_sourceBytesPerChunk mode).isSome ∧
+                   (Mieru.Gen.Arith.buildLowEntropyParams_halfMaskOnes mode).isSome) ∧
+      (∃ f, Mieru.Gen.Arith.maxFragmentSize mtu Mieru.Gen.streamTransport mode = some f ∧ 0 < f) ∧
+      (∃ f, Mieru.Gen.Arith.maxFragmentSize mtu Mieru.Gen.packetTransport mode = some f ∧ 0 < f) ∧
+      Mieru.Gen.Arith.isValidLowEntropyRotation rot = true ∧
+      0 ≤ Mieru.Gen.PatternGen.nonceRewriteLen minLen maxLen 24 r ∧
+      Mieru.Gen.PatternGen.nonceRewriteLen minLen maxLen 24 r ≤ 12 ∧
+      (∀ s ∈ non.customHex, validHex s = true ∧ s.length / 2 ≤ 12) := by
+  have hval := effective_valid fi hfi host p ((validate_iff p).mp hv)
+  obtain ⟨h1, h2, h3, h4⟩ := hval
+  simp only [effective] at h1 h2 h3 h4 ⊢
+  -- every leaf is set
+  have hs := effective_all_set fi host p
+  simp only [effective, Option.bind_some] at hs
+  obtain ⟨_, hs2, _, _, hs5, hs6, _, _, hs9, hs10⟩ := hs
+  obtain ⟨sleep, hsleep⟩ := Option.isSome_iff_exists.mp hs2
+  obtain ⟨minLen, hmin⟩ := Option.isSome_iff_exists.mp hs5
+  obtain ⟨maxLen, hmax⟩ := Option.isSome_iff_exists.mp hs6
+  obtain ⟨mode, hmode⟩ := Option.isSome_iff_exists.mp hs9
+  obtain ⟨rot, hrot⟩ := Option.isSome_iff_exists.mp hs10
+  have ht := h1 _ rfl sleep hsleep
+  have hn := h2 _ rfl
+  have hl := h4 _ rfl
+  have hmv : validMode mode := hl.1 mode hmode
+  have hrv : validRotation rot := hl.2 rot hrot
+  have hmn := hn.1 minLen hmin
+  have hmx := hn.2.1 maxLen hmax
+  have hle := hn.2.2.1 minLen maxLen hmin hmax
+  refine ⟨_, _, _, _, mode, rot, minLen, maxLen, sleep, rfl, rfl, rfl, rfl, hmode, hrot, hmin, hmax, hsleep, ht.1, ht.2, ?_, ?_, ?_, ?_, ?_, ?_, hn.2.2.2⟩
+  · intro h0
+    unfold validMode at hmv
+    have : mode = 1 ∨ mode = 2 ∨ mode = 3 ∨ mode = 4 := by omega
+    rcases this with rfl | rfl | rfl | rfl <;> decide
+  · unfold validMode at hmv
+    have : mode = 0 ∨ mode = 1 ∨ mode = 2 ∨ mode = 3 ∨ mode = 4 := by omega
+    have hI : Mieru.Gen.Arith.maxFragmentSizeInternal mtu Mieru.Gen.streamTransport = 32768 := rfl
+    rcases this with rfl | rfl | rfl | rfl | rfl <;> exact ⟨_, rfl, by rw [hI]; decide⟩
+  · unfold validMode at hmv
+    have h88 : (0:Int) ≤ mtu - 88 := by omega
+    have : mode = 0 ∨ mode = 1 ∨ mode = 2 ∨ mode = 3 ∨ mode = 4 := by omega
+    rcases this with rfl | rfl | rfl | rfl | rfl
+    · exact ⟨mtu - 88, by simp [Mieru.Gen.Arith.maxFragmentSize, Mieru.Gen.Arith.maxFragmentSizeInternal, Mieru.Gen.packetTransport, Mieru.Gen.streamTransport, Mieru.Gen.packetOverhead]; omega, by omega⟩
+    all_goals
+      simp [Mieru.Gen.Arith.maxFragmentSize, Mieru.Gen.Arith.buildLowEntropyParams_sourceBytesPerChunk,
+        Mieru.Gen.Arith.buildLowEntropyParams_halfMaskOnes, Mieru.Gen.packetTransport, Mieru.Gen.streamTransport,
+        Mieru.Gen.packetOverhead, Mieru.Gen.lowEntropyChunkLen, Int.tdiv_eq_ediv_of_nonneg h88]
+      exact ⟨_, ⟨by omega, rfl⟩, by omega⟩
+  · have h0 : 0 ≤ rot := by unfold validRotation at hrv; omega
+    unfold validRotation at hrv
+    unfold Mieru.Gen.Arith.isValidLowEntropyRotation
+    rw [Int.tmod_eq_emod_of_nonneg h0]
+    simp only [decide_eq_true_eq]
+    omega
+  · have := nonce_rewrite_len_in_clamped_range minLen maxLen 24 r
+    simp only [nonceRewriteRange] at this
+    obtain ⟨_, _, h5, _, _⟩ := this
+    have : (if minLen > (if maxLen > 24 then 24 else maxLen) then (if maxLen > 24 then 24 else maxLen) else minLen) = minLen := by
+      rw [if_neg (by omega : ¬ maxLen > 24), if_neg (by omega)]
+    omega
+  · have := nonce_rewrite_len_in_clamped_range minLen maxLen 24 r
+    simp only [nonceRewriteRange] at this
+    obtain ⟨_, _, _, h6, _⟩ := this
+    have : (if maxLen > 24 then (24 : Int) else maxLen) = maxLen := by rw [if_neg (by omega)]
+    omega
+
+end Mieru.C16
+
+/-! ## Non-vacuity of the round-3 families -/
+namespace Mieru.C16
+open Mieru.Pattern Mieru.Padding Mieru.PatternWire
+
+/-- the server of a session whose pattern is mode 3 / rotation 32 -/
+def srv : LESession := { isClient := false, pattern := some { lowEntropy := some { mode := some 3, maskRotation := some 32 } } }
+
+-- before the client used low entropy the server emits plain type 7; after a received type 10, type 11 with the configured mode / rotation
+example : runEmits srv [.recv 6, .sendChunk 1, .recv 10, .sendChunk 2] = [⟨7, 0, 0⟩, ⟨11, 3, 32⟩, ⟨11, 3, 32⟩] := by decide
+-- a low-entropy ack-less client: type 10 from its first data segment
+example : runEmits { srv with isClient := true } [.sendChunk 1] = [⟨10, 3, 32⟩] := by decide
+-- a type-10 segment received by a CLIENT session (wrong direction) does not set the flag
+example : (runState { srv with isClient := true } [.recv 10]).clientUsedLE = false := by decide
+example : wireFlags (some (1, false)) [7, 7, 9, 7, 9] [] = [true, false, true, false, false] := by decide
+example : wireFlags (some (1, true)) [7, 7, 9] [] = [true, true, true] := by decide
+example : wireFlags none [7, 7, 9] [] = [false, false, false] := by decide
+example : (encryptN (some (2, false)) 3 { implicitMode := true }).map (·.sentNonce) = [true, false, false] := by decide
+example : rewriteNonce .subset [0x00, 0xff, 0x41, 0x80] 2 [] none = [65, 106, 0x41, 0x80] := by decide
+example : rewriteNonce .printable [0x00, 0xc1, 0x41, 0x80] 3 [5] none = [0x25, 0x41, 0x41, 0x80] := by decide
+example : rewriteNonce .fixed [1, 2, 3, 4] 0 [] (some [9, 8]) = [9, 8, 3, 4] := by decide
+-- 10 bytes, ⌊√10⌋ = 3: pieces of 4..5 bytes, the last one what remains
+example : pieces 10 3 (fun k => k) 10 0 [1, 2, 3, 4, 5, 6, 7, 8, 9, 10] = [[1, 2, 3, 4], [5, 6, 7, 8, 9], [10]] := by decide
+example : writes true [1, 2, 3] (fun k => k) = [[1, 2, 3]] := by decide
+example : maxPadTP 200 (some 0) = 0 ∧ maxPadTP 200 (some 7) = 7 ∧ maxPadTP 5 (some 7) = 5 ∧ maxPadTP 200 none = 200 ∧ maxPadTP 200 (some (-1)) = 0 := by decide
+example : Mieru.Gen.PatternGen.nonceRewriteLen 30 40 24 5 = 24 ∧ Mieru.Gen.PatternGen.nonceRewriteLen 9 3 24 5 = 3 ∧
+    Mieru.Gen.PatternGen.nonceRewriteLen 6 9 24 7 = 9 := by decide
+example : Mieru.Gen.PatternGen.maxPaddingSizeWithTrafficPattern 1400 2 100 0 false false (some 0) none 0 = 0 := by decide
+example : validate witness = .ok () ∧ FixedIntOK Mieru.FixedInt.fixedIntSha := ⟨rfl, fixedIntSha_ok⟩
+
+end Mieru.C16
